@@ -93,4 +93,67 @@ theorem reach_inv {c s} (hc : c.helpTail = true) (r : Reach c s) : Inv c s := by
   | init => exact inv_init c
   | step _ st ih => exact inv_step hc ih st
 
+/-! ### how a step changes the ghost histories and what it returns -/
+
+macro "step_split" st:ident : tactic => `(tactic|
+  (simp only [step] at $st:ident
+   repeat' (split at $st:ident)
+   all_goals (try (simp at $st:ident; done))
+   all_goals (simp only [Option.some.injEq, Prod.mk.injEq] at $st:ident)))
+
+/-- a step returns a node only at a successful CAS on `q.head` that removes a user node -/
+theorem out_node {c s s' t l o p} (st : step c s t l = some (s', o)) (ho : o = .node p) :
+    l = .casHead ∧ p = s.hd t ∧ s.pc t = .dCas ∧ s.head = s.hd t ∧ s.isDummy p = false ∧
+    s' = casHeadOk s t true := by
+  cases l <;> step_split st <;> (try (obtain ⟨rfl, rfl⟩ := st; simp at ho; done))
+  obtain ⟨rfl, rfl⟩ := st
+  simp only [Out.node.injEq] at ho
+  subst ho
+  simp_all
+
+/-- a dequeue answers NULL only at the load of `head->next` -/
+theorem out_null {c s s' t l o} (st : step c s t l = some (s', o)) (ho : o = .null) :
+    (∃ d, l = .ldNext d) ∧ s.pc t = .dLdN ∧ s.next (s.hd t) = 0 ∧ s.isDummy (s.hd t) = true ∧
+    s' = ldNextNull s t := by
+  cases l <;> step_split st <;> (try (obtain ⟨rfl, rfl⟩ := st; simp at ho; done))
+  obtain ⟨rfl, rfl⟩ := st
+  simp_all
+
+/-- the enqueue history grows only at a successful link CAS of a user node -/
+theorem step_enqd {c s s' t l o} (st : step c s t l = some (s', o)) :
+    s'.enqd = s.enqd ∨
+    (l = .casNext ∧ s.pc t = .eCas ∧ s.next (s.tl t) = 0 ∧ s.isDummy (s.node t) = false ∧ o = .unit ∧
+      s'.enqd = s.enqd ++ [s.node t] ∧ s'.deqd = s.deqd) := by
+  cases l <;> step_split st <;> obtain ⟨rfl, rfl⟩ := st <;>
+    simp [tick, enqCallS, casNextOk, casNextFail, casTailAdvOk, casTailAdvFail, casTailHelpOk, casTailHelpFail,
+      ldNextNull, ldNextAlloc, ldNextGo, ldTailDS, casTailDOk, casTailDFail, casHeadOk, casHeadFail, reclaimS, *]
+  all_goals (split <;> simp_all)
+
+/-- the dequeue history grows only when a node is returned -/
+theorem step_deqd {c s s' t l o} (st : step c s t l = some (s', o)) :
+    s'.deqd = s.deqd ∨ (o = .node (s.hd t) ∧ s'.deqd = s.deqd ++ [s.hd t] ∧ s'.enqd = s.enqd) := by
+  cases l <;> step_split st <;> obtain ⟨rfl, rfl⟩ := st <;>
+    simp [tick, enqCallS, casNextOk, casNextFail, casTailAdvOk, casTailAdvFail, casTailHelpOk, casTailHelpFail,
+      ldNextNull, ldNextAlloc, ldNextGo, ldTailDS, casTailDOk, casTailDFail, casHeadOk, casHeadFail, reclaimS, *]
+
+theorem walk_all {nx : Nat → Nat} {isD : Nat → Bool} {a l} (h : Seg nx a l) :
+    walkAllDummy nx isD l.length a = l.all isD := by
+  induction l generalizing a with
+  | nil => simp only [Seg] at h; simp [walkAllDummy, h]
+  | cons b l ih =>
+    simp only [Seg] at h
+    obtain ⟨rfl, h2, h3⟩ := h
+    simp [walkAllDummy, h2, ih h3]
+
+/-- at the load that answers NULL the chain is the single dummy -/
+theorem null_chain {c s t} (h : Inv c s) (hp : s.pc t = .dLdN) (h0 : s.next (s.hd t) = 0) :
+    s.hd t = s.head ∧ s.chain = [s.head] := by
+  have e : s.hd t = s.head := by
+    rcases h.d_hd t (by simp [HoldsHd, hp]) with r | r
+    · exact r
+    · exact absurd h0 (h.rem_next _ r)
+  refine ⟨e, ?_⟩
+  rw [e] at h0
+  exact seg_single h.seg (seg_mem_ne_zero h.seg h.head_in) h0
+
 end UrcuVerif.Lfq
